@@ -67,6 +67,31 @@ Definition field_path (outer inner : bytes) : bytes :=
 Definition msg_too_few : bytes := Eval compute in bs "reflect: Call with too few input arguments"%string.
 Definition msg_too_many : bytes := Eval compute in bs "reflect: Call with too many input arguments"%string.
 
+(* ------------------------------------------------------------------ the method table entry of a function *)
+
+(* a result type of a published Go function, as far as makeMethod looks at it *)
+Inductive rdesc :=
+| RPlain (t : pty)              (* a type that does not implement error *)
+| RErrorIface                   (* the interface type `error` *)
+| RConcreteError (t : pty).     (* a concrete type implementing error: a pointer to a struct, a named slice, map or
+                                   string type, ... (nillable or not) *)
+
+(* t.Out(n-1).Implements(errorType) *)
+Definition implements_error (r : rdesc) : bool :=
+  match r with RPlain _ => false | RErrorIface | RConcreteError _ => true end.
+
+Definition rdesc_type (r : rdesc) : pty :=
+  match r with RPlain t | RConcreteError t => t | RErrorIface => TIface end.
+
+(* rpc/core/method.go makeMethod: a leading context.Context is not a parameter; the LAST result is the call's
+   error slot exactly when its type implements error (not only when it is the interface type `error`) *)
+Definition make_method (id : N) (name : bytes) (ctx : bool) (params : list pty) (velem : option pty)
+                       (outs : list rdesc) : method :=
+  let last_is_error := match rev outs with r :: _ => implements_error r | [] => false end in
+  {| m_id := id; m_name := name; m_missing := false; m_ctx := ctx; m_params := params; m_velem := velem;
+     m_results := map rdesc_type (if last_is_error then removelast outs else outs);
+     m_err := last_is_error |}.
+
 (* what the caller of a remote call gets *)
 Inductive rres :=
 | RRes (vs : list gval)
@@ -87,7 +112,8 @@ Variable zero : pty -> gval.
 
 (* the published functions *)
 Inductive fout :=
-| FRet (vs : list gval) (err : option bytes)      (* results without the error slot; the error slot *)
+| FRet (vs : list gval) (err : option bytes)      (* results without the error slot; the error slot: None when it holds the ZERO
+                                                     value of its type (Execute: out[n-1].IsZero()), else its Error() text *)
 | FPanic (msg : bytes).                           (* fmt.Sprintf("%v", recovered value) *)
 Variable impl : N -> list gval -> fout.
 Variable stack : bytes.                           (* runtime.Stack text (only visible with Debug) *)
@@ -155,6 +181,12 @@ Definition handle (o : sopts) (svc : registry) (rh : headers) (req : bytes) : op
       | None => reply (inr (EPlain (cant_find tilde))) []
       end
   end.
+
+(* Several requests, whatever their interleaving on a connection: every request is handled in a context of its
+   own (core.NewServiceContext per request: the method found by the codec, the headers), so the answer to a
+   request is a function of that request alone *)
+Definition serve_all (o : sopts) (svc : registry) (rh : headers) (reqs : list bytes) : list (option bytes * log) :=
+  map (handle o svc rh) reqs.
 
 (* the transport *)
 Variable tr_req : bytes -> list bytes.      (* the requests the service handler runs on when the client sends one *)
